@@ -1038,6 +1038,7 @@ func (a *Aff) headerInvariants(h *ssa.BasicBlock) []Con {
 			step := int64(0)
 			okPhi := true
 			nBack := 0
+			mono := 0
 			for i, e := range phi.Edges {
 				pred := h.Preds[i]
 				var le *Lin
@@ -1049,7 +1050,17 @@ func (a *Aff) headerInvariants(h *ssa.BasicBlock) []Con {
 				if h.Dominates(pred) { // back edge
 					d := le.Sub(cur)
 					k, isC := d.IsConst()
-					if !isC || (nBack > 0 && k != step) {
+					if !isC {
+						// a variable but provably non-negative advance (`total += len(row)`): the
+						// quantity never falls below its initial value
+						if a.Prove(pred, Con{d}) {
+							mono++
+							continue
+						}
+						okPhi = false
+						break
+					}
+					if nBack > 0 && k != step {
 						okPhi = false
 						break
 					}
@@ -1063,7 +1074,11 @@ func (a *Aff) headerInvariants(h *ssa.BasicBlock) []Con {
 					init = le
 				}
 			}
-			if !okPhi || nBack == 0 || init == nil {
+			if okPhi && mono > 0 && init != nil && (nBack == 0 || step >= 0) {
+				out = append(out, GE(cur, init))
+				continue
+			}
+			if !okPhi || nBack == 0 || init == nil || mono > 0 {
 				continue
 			}
 			// init must not depend on loop-variant symbols (it is evaluated before the loop): by construction it comes from outside
